@@ -235,7 +235,10 @@ func (s *IncrSolver) Check(sym *SymCtx, asserts []string) bool {
 	for s.litsSent < len(sym.litOrder) {
 		lit := sym.litOrder[s.litsSent]
 		name := sym.lits[lit]
-		fmt.Fprintf(&b, "(declare-const %s Str)\n(assert (= (slen %s) %d))\n", name, name, len(lit))
+		if !sym.isPreset[name] {
+			fmt.Fprintf(&b, "(declare-const %s Str)\n", name)
+		}
+		fmt.Fprintf(&b, "(assert (= (slen %s) %d))\n", name, len(lit))
 		for k := 0; k < s.litsSent; k++ {
 			fmt.Fprintf(&b, "(assert (not (= %s %s)))\n", name, sym.lits[sym.litOrder[k]])
 		}
